@@ -155,8 +155,40 @@ class ClassStub:
 class StructStub:
     _folder_stub = True
 
-    def __init__(self, residues):
+    def __init__(self, residues, repo=None):
         self.residues = list(residues)
+        self.__dict__["_repo"] = repo
+        self.__dict__["_busy"] = set()
+
+    def __getattr__(self, name: str):
+        # properties and methods of tertiary.Structure3D, evaluated from their ast on the stand-in (as ResStub does for Residue3D)
+        repo = self.__dict__.get("_repo")
+        if name.startswith("_") or repo is None:
+            raise AttributeError(name)
+        try:
+            fi = repo.func("tertiary", f"Structure3D.{name}")
+        except Exception:
+            raise AttributeError(name)
+        if not any(d in ("property", "cached_property") for d in fi.decorators):
+            params = [a.arg for a in fi.node.args.args][1:]
+
+            def method(*args, _fi=fi, _params=params):
+                return self._eval(_fi, dict(zip(_params, args)))
+
+            return method
+        if name in self._busy:
+            raise Unknown(f"recursive property {name}")
+        self._busy.add(name)
+        try:
+            return self._eval(fi, {})
+        finally:
+            self._busy.discard(name)
+
+    def _eval(self, fi: FuncInfo, args: Dict[str, Any]):
+        env = {"self": self, "Residue3D": ClassStub(self._repo, "tertiary", "Residue3D")}
+        env.update(args)
+        kind, val = BlockEval(self._repo, "tertiary", env).run(fi.node.body)
+        return val if kind == "return" else None
 
 
 def record_classes(repo, module: str) -> Dict[str, Any]:
@@ -195,7 +227,7 @@ def run_prefix(repo, fi: FuncInfo, points: str, residues: Sequence[ResStub], mod
     params = [a.arg for a in fi.node.args.args]
     if len(params) < 2:
         raise NotEvaluable("expected (structure, model) parameters")
-    env: Dict[str, Any] = {params[0]: StructStub(residues), params[1]: model}
+    env: Dict[str, Any] = {params[0]: StructStub(residues, repo), params[1]: model}
     env.update(record_classes(repo, fi.module.name))
     # module-level helpers of the analysed module as callables whose *ast* is evaluated in the same world (sa/world.py)
     from sa import world as W
